@@ -42,6 +42,16 @@ SPEC: dict[str, list[Unit]] = {
             Fn("PairingToZ1d.pair", self_attrs={"left": I, "right": I, "_omitting_zero": I}),
         ]),
     ],
+    "C09": [
+        Unit("rpylib/model/levymodel/mixed/hem.py", [
+            Fn("_HEMLevyMeasure.integrate", **(_HEM := dict(
+                params={"a": R, "b": R}, ret=R, err="(0 : Rat)", fuel="2",
+                self_attrs={"parameters.intensity": R, "parameters.p": R, "parameters.eta1": R, "parameters.eta2": R},
+                const_exprs={"a==-np.inf": ("a_is_neg_inf", B), "b==np.inf": ("b_is_pos_inf", B)},
+                fn_params={"np.exp": "exp"}))),
+            Fn("_HEMLevyMeasure.integrate_against_x", **_HEM), Fn("_HEMLevyMeasure.integrate_against_xx", **_HEM),
+        ]),
+    ],
     "C10": [
         Unit("rpylib/model/levymodel/levymodel.py", [
             Fn("LevyTriplet.canonical_drift", **(_T := dict(
